@@ -537,7 +537,7 @@ def reloctwins(cfg=None, reopen_ok=False):
     is relocated) - the second and third X take the first one's names (`reuse`).  Files inside each, then edits."""
     c = cfg if cfg is not None else cfg_st(rr=st.sampled_from(['1.09', '1.10', '1.12']), level=st.sampled_from([1, 2, 3, 3]))
 
-    def build(chain, g, x, fx, h, x2, fx2, third, tail, custom=None):
+    def build(chain, g, x, fx, h, x2, fx2, third, tail, custom=None, teardown=0):
         ops = [custom] if custom else []      # optionally a relocation directory with a name of the user's choice
         ops += [dict(o, d=-1, reuse=0) for o in chain]
         ops.append(dict(g, d=-1, reuse=0))          # G, depth 7
@@ -549,6 +549,10 @@ def reloctwins(cfg=None, reopen_ok=False):
         if third:
             ops.append(dict(h, d=6, reuse=0, salt=(h.get('salt', 0) + 1) % 1000))
             ops.append(dict(x2, d=-1, reuse=7, twin=1, salt=(x2.get('salt', 0) + 1) % 1000))
+        if teardown:
+            # everything is given back, bottom-up (the relocation directory goes with its last relocated directory), then a
+            # relocated directory is added once more
+            tail = tail + [{'k': 'rm_file', 'b': 0, 'j': 0}] * 8 + [{'k': 'rm_sym', 'i': 0}] * 4 + [{'k': 'rm_dir', 'd': 0, 'ns': 7}] * (3 if teardown == 1 else 16) + [{'k': 'write'}]
         return ops + tail
     D = add_dir(ns=st.sampled_from([7, 7, 1, 3]), rsz=st.integers(0, 3), sz=st.integers(0, 2))
     F = add_fp(length=SMALL_LEN, file=st.just(False))
@@ -556,7 +560,7 @@ def reloctwins(cfg=None, reopen_ok=False):
     if reopen_ok:
         tail_choices += [reopen, reopen]
     return program(c, st.builds(build, st.lists(D, min_size=6, max_size=6), D, D, F, D, D, F, st.booleans(), st.lists(st.one_of(*tail_choices), min_size=0, max_size=10),
-                                st.one_of(st.none(), st.none(), set_reloc)))
+                                st.one_of(st.none(), st.none(), set_reloc), st.sampled_from([0, 0, 1, 2])))
 
 
 def readd(cfg=None, reopen_ok=False):
